@@ -23,9 +23,11 @@ var c05Table = map[byte]refmodel.Behaviour{
 	'w': {refmodel.SWrite, refmodel.SNext, refmodel.SProbe},
 	'u': {refmodel.SStatus, refmodel.SNext},
 	'r': {refmodel.SRedispAbort, refmodel.SProbe, refmodel.SNext, refmodel.SProbe},
+	'z': {refmodel.SAbortSt200, refmodel.SProbe},
+	'D': {refmodel.SSilent, refmodel.SDefault404}, // the built-in not-found responder (last handler of "notfound" chains)
 }
 
-const c05Codes = "pnqabctsmwu"
+const c05Codes = "pnqabctsmwuz"
 
 // compareChain runs one chain on rux and on the model and reports differences.
 func compareChain(sh chainShape, table map[byte]refmodel.Behaviour, st *fw.Stats) []fw.Viol {
@@ -160,6 +162,12 @@ func c05Gen(tier string, emit func(c05Case)) {
 			vectors(c05Codes, n, func(b string) { push(chainShape{N: n, Split: sp, Via: viaFor(sp), Beh: b}) })
 		}
 	}
+	// unmatched requests: global middleware around the built-in not-found responder, which must not start after an abort
+	for n := 2; n <= 4; n++ {
+		vectors("pnqabtsmuz", n-1, func(b string) {
+			push(chainShape{N: n, Split: [3]int{n - 1, 0, 0}, Via: "notfound", Beh: b + "D"})
+		})
+	}
 	// a handler that re-dispatches (HandleContext) to a route whose middleware aborts: route-level chains only
 	// (global middleware would run again inside the re-dispatch), exactly one such handler, at every position
 	for n := 2; n <= 5; n++ {
@@ -201,7 +209,7 @@ func c05Gen(tier string, emit func(c05Case)) {
 func c05Run(c c05Case, st *fw.Stats) []fw.Viol {
 	var vs []fw.Viol
 	for _, sh := range c.Shapes {
-		if strings.ContainsAny(sh.Beh, "abctsmr") {
+		if strings.ContainsAny(sh.Beh, "abctsmrz") {
 			st.Nontrivial++
 		}
 		v := compareChain(sh, c05Table, st)
@@ -214,7 +222,7 @@ func c05Run(c c05Case, st *fw.Stats) []fw.Viol {
 		st.Max("max_chain", int64(sh.N))
 	}
 	if st.WantSample() {
-		st.Sample(map[string]any{"chain": c.Shapes[0], "codes": "p=plain n=Next q=Next,probe a=probe,Abort,probe b=Abort,probe,Next,probe c=Next,probe,Abort,probe t=AbortThen,probe s=AbortWithStatus,probe m=AbortWithStatus(msg),probe,Next w=write,Next,probe u=SetStatus(201),Next r=HandleContext to a route whose middleware aborts,probe,Next,probe"})
+		st.Sample(map[string]any{"chain": c.Shapes[0], "codes": "p=plain n=Next q=Next,probe a=probe,Abort,probe b=Abort,probe,Next,probe c=Next,probe,Abort,probe t=AbortThen,probe s=AbortWithStatus,probe m=AbortWithStatus(msg),probe,Next w=write,Next,probe u=SetStatus(201),Next z=AbortWithStatus(200),probe D=built-in 404 responder r=HandleContext to a route whose middleware aborts,probe,Next,probe"})
 	}
 	return vs
 }
@@ -222,7 +230,7 @@ func c05Run(c c05Case, st *fw.Stats) []fw.Viol {
 var c05Spec = fw.Spec[c05Case]{
 	ID:    "C05",
 	Level: "model_checking",
-	Rule: "complete product: all behaviour vectors over 11 handler behaviours (+ one handler that re-dispatches with HandleContext to an aborting route, at every position of route-level chains n<=5) (plain, Next, Next+probe, SetStatus(201)+Next, Abort before/after/without Next, AbortThen, AbortWithStatus with/without message, write-then-Next) for chains of n<=4 (thorough 5) handlers x every split of the middleware into global/group/route; n=5 and chains near the handler limit (33,34,61,62,63) by deviation bounding (uniform default behaviour, <=d deviating positions at every position); IsAborted() sampled at every entry and around every abort/Next; " +
+	Rule: "complete product: all behaviour vectors over 12 handler behaviours (+ chains of global middleware around the built-in not-found responder) (+ one handler that re-dispatches with HandleContext to an aborting route, at every position of route-level chains n<=5) (plain, Next, Next+probe, SetStatus(201)+Next, Abort before/after/without Next, AbortThen, AbortWithStatus with/without message, write-then-Next) for chains of n<=4 (thorough 5) handlers x every split of the middleware into global/group/route; n=5 and chains near the handler limit (33,34,61,62,63) by deviation bounding (uniform default behaviour, <=d deviating positions at every position); IsAborted() sampled at every entry and around every abort/Next; " +
 		"each chain is run through ServeHTTP and compared event by event with a cursor-free chain interpreter; non-trivial = a chain containing an abort",
 	Assume: []string{"chains stay within the documented limit (62 middleware + main handler); global middleware is not counted by any registration check (noted in DESIGN, outside the property)"},
 	Bounds: func(tier string) map[string]any {
